@@ -76,8 +76,8 @@ func run(c *lib.Ctx) {
 		"spellings differing other than in letter case (with/without 0x prefix) are different accounts and not covered by the statement",
 		"a panic escaping an operation is treated like a returned error (the executor converts it to ErrExecPanic): the store must be unchanged")
 
-	nDef := c.N(300, 24000)
-	nEth := c.N(100, 8000)
+	nDef := c.N(300, 18000)
+	nEth := c.N(100, 6000)
 	var mu sync.Mutex
 	var results []*seqResult
 
